@@ -72,7 +72,7 @@ def codec_part(ctx):
             raise vlib.Inconclusive("Codec model does not reject defect %s (invariant vacuous?)" % d)
     binary = vlib.go_build("c01")
     trace = os.path.join(ctx.tmp, "codec.ndjson")
-    nsh = 4
+    nsh = 4 if q else 8
     parts = []
     ths = []
     errs = []
@@ -93,43 +93,57 @@ def codec_part(ctx):
             with open(p) as fi:
                 for line in fi:
                     fo.write(line)
-    evs = vlib.read_jsonl(trace)
-    nrecv = sum(1 for e in evs if e["ev"] == "recv")
+    # stream the trace once (it can be millions of lines in the thorough tier): counts and one sample
+    nrecv = nf = nev = 0
+    per = collections.Counter()
+    pick = random.Random(ctx.seed).randrange(max(1, ncases))
+    sample = []
+    with open(trace) as fh:
+        for line in fh:
+            nev += 1
+            if '"ev":"recv"' in line:
+                e = json.loads(line)
+                per[e["codec"] + "/" + e["dir"]] += 1
+                if nrecv == pick:
+                    sample = [e]
+                nrecv += 1
+            else:
+                if '"ev":"fwd"' in line:
+                    nf += 1
+                if sample and len(sample) < 5 and nrecv == pick + 1:
+                    sample.append(json.loads(line))
     if nrecv != ncases:
         raise vlib.Inconclusive("codec driver replayed %d of %d behaviours" % (nrecv, ncases))
     chunks = split_trace(trace, "recv", 30000, ctx.tmp, "codec-chunk")
-    results = validate_chunks(ctx, "wire", "CodecTrace", chunks)
-    # context of every line: the run it belongs to
-    run_at = {}
-    start = 0
-    for i, e in enumerate(evs, 1):
-        if e["ev"] == "recv":
-            start = i
-        run_at[i] = start
+    results = validate_chunks(ctx, "wire", "CodecTrace", chunks, par=6 if q else 8)
+    fails = {}   # (codec, dir, kind) -> {frozenset(context ops): [count, first example]}
 
-    fails = {}   # (codec, dir, kind) -> {frozenset(context ops): first example}
-
-    def fail(line, kind):
-        st = run_at[line]
+    def fail(evs, line, kind):
+        st = line
+        while evs[st - 1]["ev"] != "recv":
+            st -= 1
         run = evs[st - 1:line]
         head = run[0]
         ops = frozenset({(e.get("op") or e["ev"]) for e in run[1:-1] if e["ev"] in ("mut", "scribble", "reuse")} - {"get"})
         d = fails.setdefault((head["codec"], head["dir"], kind), {})
         if ops not in d:
-            d[ops] = [0, dict(line=line, kind=kind, codec=head["codec"], dir=head["dir"], seed=ctx.seed,
-                              case_index=head.get("case"), history=run)]
+            d[ops] = [0, dict(kind=kind, codec=head["codec"], dir=head["dir"], seed=ctx.seed, case_index=head.get("case"), history=run)]
         d[ops][0] += 1
-    for first, v in results:
+    for (path, first), (_, v) in zip(chunks, results):
         ctx.cov["states"] += v["distinct"]; ctx.cov["transitions"] += v["generated"]
         mm = mismatches(v["text"])
         if not v["accepted"] and not mm and v["matched"] is None:
             raise vlib.Inconclusive("trace validation of CodecTrace did not complete:\n%s" % v["text"][-1500:])
+        rejected = v["matched"] is not None and v["total"] is not None and v["matched"] < v["total"]
+        if not mm and not rejected:
+            continue
+        evs = vlib.read_jsonl(path)      # only chunks with a failure are loaded
         for line, kinds in sorted(mm.items()):
             for k in sorted(kinds):
-                fail(first + line - 1, k)
-        if v["matched"] is not None and v["matched"] < v["total"]:
-            line = first + v["matched"]
-            fail(line, "trace-rejected:" + evs[line - 1]["ev"])
+                fail(evs, line, k)
+        if rejected:
+            line = v["matched"] + 1
+            fail(evs, line, "trace-rejected:" + evs[line - 1]["ev"])
     # the signature names the failing input class by the *minimal* sets of calls made on the frame before the failure
     # (a failure that already shows on an untouched frame is not reported again for every longer behaviour)
     for (codec, d_, kind), byctx in sorted(fails.items()):
@@ -139,16 +153,12 @@ def codec_part(ctx):
             sig = "C01:codec:%s:%s:%s:%s" % (codec, d_, kind, "+".join(sorted(ops)) if ops else "clean")
             detail["occurrences"] = cnt
             vlib.report_failure(ctx, sig, detail)
-    nf = sum(1 for e in evs if e["ev"] == "fwd")
     ctx.cov["traces_validated_against_impl"] += nrecv
     ctx.cov["evaluations"] += nf + nrecv
     ctx.cov["distinct_nontrivial"] += ncases
-    ctx.cov.setdefault("trace_events", {})["codec"] = len(evs)
-    per = collections.Counter(e["codec"] + "/" + e["dir"] for e in evs if e["ev"] == "recv")
+    ctx.cov.setdefault("trace_events", {})["codec"] = nev
     ctx.cov.setdefault("per_class", {})["codec"] = dict(per)
-    k = random.Random(ctx.seed).randrange(max(1, nrecv))
-    st = [i for i, e in enumerate(evs) if e["ev"] == "recv"][k]
-    ctx.sample({"part": "codec", "run": evs[st:st + 5]})
+    ctx.sample({"part": "codec", "run": sample})
     return cases
 
 
